@@ -69,6 +69,9 @@ def population(rng, family, size):
         return [str(uuid.UUID(int=r(128), version=4)) for _ in range(size)]
     if family == "email":
         return ["user%d@example%d.com" % (off + i, i % 7) for i in range(size)]
+    if family == "mixed-case-token":
+        import base64
+        return [base64.b64encode((off + i).to_bytes(6, "big")).decode("ascii") for i in range(size)]
     return [(off + i, "c%d" % (i % 50)) for i in range(size)]          # multi-field
 
 
@@ -76,7 +79,7 @@ def run(ctx):
     from pyab_experiment.experiment_evaluator import ExperimentEvaluator
     rng = ctx.rng
     size = SIZE[ctx.tier]
-    families = ["sequential", "sequential-str", "zero-padded", "uuid", "email", "multi-field"]
+    families = ["sequential", "sequential-str", "zero-padded", "uuid", "email", "multi-field", "mixed-case-token"]
     ctx.extra["rule"] = ("id families (sequential ints, digit strings, zero-padded, UUID-like, e-mail-like, two-field keys) x random offsets x "
                          "salts x weight vectors; every assignment of the real evaluator must equal the published scheme exactly "
                          "(correspondence); chi-square goodness-of-fit and chi-square independence between two salts are evaluated on those "
@@ -91,6 +94,10 @@ def run(ctx):
         if sum(gen.weight_fraction(w) for w in ws) == 0:
             ws = ["1", "1"]
         salts = ["salt_%d" % rng.randrange(10 ** 6), "other_%d" % rng.randrange(10 ** 6)]
+        if k % 3 == 1:
+            # two salts that differ only in letter case are still two different salts
+            base = "Checkout_V%d" % rng.randrange(100)
+            salts = [base, base.lower()]
         two = fam == "multi-field"
         groups = ", ".join('"g%d" weighted %s' % (i, w) for i, w in enumerate(ws))
         evs = [ExperimentEvaluator('def e { salt: "%s" splitters: %s return %s }' % (s, "uid, cc" if two else "uid", groups)) for s in salts]
